@@ -142,11 +142,13 @@ def max_rel_deviation(a, b):
 
 def compare_closed_forms(ca, cb, tol=1e-25):
     """True / False / None(inconclusive)"""
-    # Auxiliary symbols (e.g. _prob3 = P(f == 1) of an abstracted condition) denote quantities the closed form does not
-    # spell out; they were given generic values.  If the two sides do not contain the same auxiliaries (one side
-    # abstracted a condition, the other typed the variable) the values cannot be compared: inconclusive, never a difference.
-    aux_a = {x for x in ca["free"] if x.startswith("_")}
-    aux_b = {x for x in cb["free"] if x.startswith("_")}
+    # The symbols _prob<k> = P(condition) of abstracted conditions denote quantities the closed form does not spell out
+    # (Polar prints them in a `where` clause); they were given generic values.  If the two sides do not contain the same
+    # ones (one side abstracted a condition, the other typed the variable) the values cannot be compared: inconclusive,
+    # never a difference.  Any other auxiliary symbol (the initial value _x_10 of an intermediate version, say) has no
+    # business in a result and is compared like an ordinary symbol.
+    aux_a = {x for x in ca["free"] if x.startswith("_prob")}
+    aux_b = {x for x in cb["free"] if x.startswith("_prob")}
     if aux_a != aux_b:
         return None
     verdict = True
